@@ -18,7 +18,7 @@ def run(tier, seed):
                            timeout=600, expect="violation")
         if not r["violated"]:
             raise vlib.Broken("the variant of FutexMulti (%s) is not rejected: the properties are vacuous" % what)
-    vlib.history_check(chk, "d_sync", ["barrier"], "H_Barrier", quick, seed, what="a caller left a barrier round before all waiters entered it")
+    vlib.history_check(chk, "d_sync", ["barrier", "xbarrier"], "H_Barrier", quick, seed, what="a caller left a barrier round before all waiters entered it")
     chk.assumptions += ["serialized mode explores sequentially consistent interleavings of the hooked atomic operations",
                         "scenario scripts follow a discipline under which a correct implementation terminates; a run that ends in deadlock/stuck/budget is reported as a progress violation"]
     return chk.finish()
